@@ -117,7 +117,8 @@ Frame(ev, newlive) ==
     /\ Chk("invalid free / heap corruption", 0, ev.badfree)
     /\ Chk("live heap blocks", newlive, ev.lv)
 
-NoHeap(ev) == Frame(ev, live) /\ Chk("frees", 0, ev.nf) /\ live' = live
+(* a call that is neither init nor cleanup leaves the set of owned blocks as it was *)
+NoHeap(ev) == Frame(ev, live) /\ live' = live
 
 RR(ev) == IF Has(ev, "rr") THEN ev.rr ELSE -1
 
@@ -300,12 +301,16 @@ TMkCryptTw ==
 
 CapOf(ev) == IF env.hook = 1 /\ Has(ev, "cap") THEN ev.cap ELSE 2
 
-(* init: o = -1 (NULL) is an invalid call; an injected allocation failure   *)
-(* must leave the object inert ("failed"); otherwise the object is live,    *)
-(* owns exactly one new block and is served by the widest back end.         *)
+(* init: o = -1 (NULL) is an invalid call; an allocation failure injected    *)
+(* into ANY of the requests the init makes (ev.failed = 1: the failure was   *)
+(* actually delivered) must leave the object inert ("failed") and nothing    *)
+(* allocated; otherwise the object is live, owns exactly one more block and  *)
+(* is served by the widest back end.  How many requests and releases an init *)
+(* performs internally is not part of the contract: only the net number of   *)
+(* live blocks (ev.lv) and the absence of invalid frees are checked.         *)
 InitOutcome(ev, kind, oldlife) ==
     IF ev.o < 0 THEN [ret |-> 0, life |-> "none", dl |-> 0]
-    ELSE IF ev.fail = 1 THEN [ret |-> 0, life |-> "failed", dl |-> 0]
+    ELSE IF ev.failed = 1 THEN [ret |-> 0, life |-> "failed", dl |-> 0]
     ELSE [ret |-> 1, life |-> "live", dl |-> 1]
 
 ----------------------------------------------------------------------------
@@ -318,7 +323,7 @@ TCtrInit ==
        IN  /\ o >= 0 => MayInit(ctr[kind][o].life)
            /\ Chk("ctr_init ret", oc.ret, ev.ret)
            /\ oc.ret = 1 => Chk("selected back end", Widest(env, kind, CapOf(ev)), ev.be)
-           /\ Frame(ev, live + oc.dl) /\ Chk("frees", 0, ev.nf)
+           /\ Frame(ev, live + oc.dl)
            /\ live' = live + oc.dl
            /\ IF o < 0 THEN UNCHANGED ctr
               ELSE ctr' = [ctr EXCEPT ![kind][o] =
@@ -332,8 +337,7 @@ TCtrCleanup ==
     /\ IsEvent("ctr_cleanup")
     /\ LET ev == Ev  kind == ev.k  o == ev.o
            islive == o >= 0 /\ ctr[kind][o].life = "live"
-       IN  /\ Chk("frees", IF islive THEN 1 ELSE 0, ev.nf)
-           /\ Chk("non-zero bytes in released memory", 0, ev.nz)
+       IN  /\ Chk("non-zero bytes in released memory", 0, ev.nz)
            /\ Frame(ev, IF islive THEN live - 1 ELSE live)
            /\ live' = IF islive THEN live - 1 ELSE live
            /\ IF islive
@@ -443,7 +447,7 @@ TParInit ==
            /\ Chk("par_init ret", oc.ret, ev.ret)
            /\ oc.ret = 1 => /\ Chk("selected back end", Widest(env, kind, CapOf(ev)), ev.be)
                             /\ Chk("parallel size", ParSize(kind, ev.be), ev.psize)
-           /\ Frame(ev, live + oc.dl) /\ Chk("frees", 0, ev.nf)
+           /\ Frame(ev, live + oc.dl)
            /\ live' = live + oc.dl
            /\ IF o < 0 THEN UNCHANGED par
               ELSE par' = [par EXCEPT ![kind][o] =
@@ -456,8 +460,7 @@ TParCleanup ==
     /\ IsEvent("par_cleanup")
     /\ LET ev == Ev  kind == ev.k  o == ev.o
            islive == o >= 0 /\ par[kind][o].life = "live"
-       IN  /\ Chk("frees", IF islive THEN 1 ELSE 0, ev.nf)
-           /\ Chk("non-zero bytes in released memory", 0, ev.nz)
+       IN  /\ Chk("non-zero bytes in released memory", 0, ev.nz)
            /\ Frame(ev, IF islive THEN live - 1 ELSE live)
            /\ live' = IF islive THEN live - 1 ELSE live
            /\ IF islive
